@@ -303,7 +303,17 @@ def c03_6(ctx):
     ctx.check(ok, 'image:only-when-requested', fn.site(w), 'the image is written iff --binary', describe_facts(cl))
 
 
-RULES = [c03_1, c03_2, c03_3, c03_4, c03_6]
+def c03_mute(ctx):
+    """'Unmuted' is decided by the condition stack's mute counter: its state machine is re-evaluated here."""
+    from rules.c08 import mute_state
+    mute_state(ctx)
+    load = ctx.repo.func('bespokeasm.assembler.assembly_file.AssemblyFile.load_line_objects')
+    ms = [n for n in walk_no_nested(load.node) if isinstance(n, ast.Assign) and unparse(n.targets[0]) == 'lobj.is_muted']
+    ctx.check(len(ms) == 1 and unparse(ms[0].value) == 'condition_stack.is_muted', 'mute:line-flag=stack-state', load.site(ms[0]) if ms else load.site(),
+              'a line is muted iff the condition stack is muted when it is reached', '; '.join(unparse(x) for x in ms))
+
+
+RULES = [c03_1, c03_2, c03_3, c03_4, c03_6, c03_mute]
 
 _E = 'assembler/engine.py'
 _M = '__main__.py'
